@@ -19,6 +19,7 @@ def run(chk, facts, tier):
     spec = json.load(open(os.path.join(VERIF, 'spec', 'smp.json')))
     chk.rule('dispatch-table', 'l2cap_input of each security manager dispatches exactly the specified opcodes to the specified handlers; empty PDU and unknown opcodes answer Pairing Failed', floor=12)
     chk.rule('handler-preconditions', 'every protocol effect (state mutation, output write) of a pairing handler is control dependent on in_size == specified length and state() == specified state', floor=8)
+    chk.rule('request-validation', 'each of the three Pairing Request handlers answers Invalid Parameters when the IO capability exceeds the last defined value, the OOB flag has other bits than bit 0, the maximum key size is outside 7..16, or reserved bits (0xf0) are set in either key distribution field - each field tested on its own', floor=3)
     chk.rule('errors-reset', 'every value return of a handler, and every error_response call in any security manager function that holds the connection state, is the member error_response(code, output, out_size, state); that member resets the pairing state to idle', floor=9)
     chk.rule('srand-after-confirm', 'legacy_handle_pairing_random copies srand to the output and completes pairing only if c1(tk, mrand, p1, p2) == stored mconfirm', floor=1)
     chk.rule('dhkey-after-ea', 'the DHKey check Eb is written and lesc_pairing_completed() is called only behind the comparison of the computed Ea with the received one', floor=2)
@@ -112,6 +113,52 @@ def run(chk, facts, tier):
                     continue
                 okr = v.is_call('error_response') and len(v.args()) == 4 and is_name(v.args()[3], fn.params[-1]['n'])
                 chk.instance('errors-reset', fn, '%s: return %s' % (h, v.text()[:60]), okr, '' if okr else 'early exit does not reset the pairing state', node=r, key='%s/ret%d' % (h, i))
+    # Pairing Request parameter validation: the three copies (legacy, LESC, combined manager) reject the same malformed requests
+    def flatten_or(n):
+        n = strip_casts(n)
+        if n.k == 'BinaryOperator' and n.o == '||':
+            return flatten_or(n.c[0]) + flatten_or(n.c[1])
+        return [n]
+
+    def input_local(fn, n):
+        """index i when n is a local initialised from input[i] (optionally masked)"""
+        n = strip_casts(n)
+        if n.k in REF_KINDS and n.d.get('local'):
+            i = local_init(fn, n.n, optional=True)
+            while i is not None and as_binop(i) is not None and as_binop(i)[0] == '&':
+                i = strip_casts(as_binop(i)[1])
+            if i is not None and i.k == 'ArraySubscriptExpr' and is_name(i.c[0], fn.params[0]['n']):
+                return cval(i.c[1])
+        return None
+    for q in (SB + 'legacy_handle_pairing_request', SB + 'lesc_handle_pairing_request', 'bluetoe::details::security_manager_impl::handle_pairing_request'):
+        for fn in [f for f in facts.fns(q) if f.kind == 'pattern']:
+            errs = [c for c in fn.body.calls('error_response') if c.args() and strip_casts(c.args()[0]).n == 'invalid_parameters']
+            conds = []
+            for c in errs:
+                for i, br in enclosing_ifs(c):
+                    if br == 'then':
+                        conds += flatten_or(i.child('cond'))
+            got = set()
+            for d in conds:
+                b = as_binop(d)
+                if not b:
+                    continue
+                if b[0] == '&' and cval(b[2]) == 0xf0 and input_local(fn, b[1]) in (5, 6):
+                    got.add('rfu%d' % input_local(fn, b[1]))
+                elif b[0] == '&' and input_local(fn, b[1]) == 2 and cval(b[2]) is not None and (cval(b[2]) & 0xff) == 0xfe:
+                    got.add('oob')
+                elif b[0] == '>' and input_local(fn, b[1]) == 1:
+                    got.add('io')
+                elif b[0] in ('<', '>') and input_local(fn, b[1]) == 4:
+                    got.add('key' + b[0])
+                elif b[0] in ('!=',) and is_name(b[1], fn.params[1]['n']):
+                    got.add('size')
+            want = {'rfu5', 'rfu6', 'oob', 'io', 'key<', 'key>'}
+            miss = sorted(want - got)
+            chk.instance('request-validation', fn, '%s: invalid_parameters for %s' % (fn.name, sorted(got)), not miss,
+                         '' if not miss else 'a Pairing Request with %s is not rejected with Invalid Parameters by this manager (the sibling handlers reject it): pairing proceeds on a malformed request' %
+                         ', '.join({'rfu5': 'reserved bits in the initiator key distribution', 'rfu6': 'reserved bits in the responder key distribution', 'oob': 'an OOB flag other than 0/1', 'io': 'an IO capability above the last defined value',
+                                    'key<': 'a maximum key size below 7', 'key>': 'a maximum key size above 16'}[m] for m in miss), key=fn.cls.split('::')[-1] + '::' + fn.name)
     # every Pairing Failed produced anywhere in the security managers (helpers, output polling, dispatch) goes through the resetting member
     seen = set()
     for fn in facts.functions:
